@@ -179,6 +179,10 @@ func (e *executableWorkflow) Execute(ctx context.Context, serializedInput any) (
 		e.logger.Debugf("Launching step %s...", stepID)
 		runningStep, err := runnableStep.Start(e.stepRunData[stepID], stepID, stageHandler)
 		if err != nil {
+			// The steps launched so far have goroutines of their own: close them, so that nothing of this
+			// run stays behind (and release the run lock they need for their notifications).
+			l.lock.Unlock()
+			l.terminateAllSteps()
 			return "", nil, fmt.Errorf("failed to launch step %s (%w)", stepID, err)
 		}
 		l.runningSteps[stepID] = runningStep
